@@ -422,10 +422,19 @@ def setup_fixtures():
     os.makedirs(os.path.join(TMP, "plain", "dir"))
     os.symlink(os.path.join(TMP, "plain", "dir"), os.path.join(TMP, "links", "away"))   # links/away/.. is <TMP>/plain: no repository
     os.symlink(GIT_REPO, os.path.join(TMP, "links", "repo"))
+    # a repository with a tracked file named exactly like its version tag: `git rev-list -n 1 v3.0.0` is
+    # ambiguous there, zerv logs the swallowed git errors on stderr and still prints a version with status 0
+    repo_c = os.path.join(TMP, "notes")
+    os.makedirs(repo_c)
+    for cmd in (["git", "init", "-q", "-b", "main", "."],):
+        _real_run(cmd, cwd=repo_c, env=genv, check=True, capture_output=True)
+    open(os.path.join(repo_c, "v3.0.0"), "w").write("release notes\n")
+    for cmd in (["git", "add", "v3.0.0"], ["git", "commit", "-q", "-m", "notes"], ["git", "tag", "v3.0.0"], ["git", "commit", "-q", "--allow-empty", "-m", "next"]):
+        _real_run(cmd, cwd=repo_c, env=genv, check=True, capture_output=True)
     PATH_SPELLINGS = [
         GIT_REPO + "/", GIT_REPO + "/.", GIT_REPO + "//", os.path.join(TMP, ".", "repo"), os.path.join(repo_b, "sub", ".."), os.path.join(repo_b, "sub"),
         os.path.join(TMP, "links", "out", ".."), os.path.join(TMP, "links", "out"), os.path.join(TMP, "links", "away", ".."), os.path.join(TMP, "links", "repo"),
-        os.path.join(TMP, "links", "repo", "..", "repo"), GIT_REPO.lstrip("/"), "./" + GIT_REPO.lstrip("/"), os.path.join(TMP, "plain"), "",
+        os.path.join(TMP, "links", "repo", "..", "repo"), GIT_REPO.lstrip("/"), "./" + GIT_REPO.lstrip("/"), os.path.join(TMP, "plain"), "", repo_c,
     ]
 
 def main():
